@@ -16,6 +16,7 @@ func init() {
 			"the meta page write happens inside the metalock critical section and pending pages are released only at writer begin, under metalock. " +
 			"NOT decided: equality of the whole view with a model, that the RIGHT pending sets are released (value-level, see C09/C10), goroutine schedules beyond lock-set reasoning. One call path violating this property on the current tree is reported under C08.R4 (known finding). Round 3: the parallel slices txPending.ids/alloctx stay index-aligned (twin writes); a read-only handle takes the shared lock before reading content. Round 4: RemoveReadonlyTXID removes exactly one registration (readers are a multiset).",
 		Run: func(c *Ctx) {
+			c10R6(c, "C02.R16") // the release bound is computed from the SORTED reader list (seed C02e)
 			ruleMappingForgottenOnlyWithUnmap(c, "C02.R15")
 			ruleOneRegistrationRemoved(c, "C02.R14") // a reader stays registered until IT closes
 			rulePendingSlicesAligned(c, "C02.R12") // the reader-extent release decides per page by alloctx[i]
